@@ -55,6 +55,10 @@ type Case struct {
 	Tee      bool     `json:"tee"`
 	Procs    int      `json:"gomaxprocs"`
 	Perturb  uint64   `json:"perturb"`
+	// ReaderLate: the reader starts this many milliseconds after the writers,
+	// so that with more than 1 MiB pending the writers are already parked on
+	// the full pipe when it arrives
+	ReaderLate int `json:"reader_late_ms,omitempty"`
 }
 
 func payload(c Chunk) []byte {
@@ -171,6 +175,7 @@ func gen(t *rapid.T) Case {
 	c.Tee = rapid.IntRange(0, 4).Draw(t, "tee") == 0
 	c.Procs = rapid.SampledFrom([]int{1, 2, 4, 16}).Draw(t, "gomaxprocs")
 	c.Perturb = rapid.Uint64Range(1, 1<<62).Draw(t, "perturb")
+	c.ReaderLate = rapid.SampledFrom([]int{0, 0, 0, 5, 30}).Draw(t, "readerlate")
 	return c
 }
 
@@ -292,6 +297,9 @@ func scenario(c Case) *core.Violation {
 		}
 	}
 	var rerr error
+	if c.ReaderLate > 0 {
+		time.Sleep(time.Duration(c.ReaderLate) * time.Millisecond)
+	}
 	switch c.Mode {
 	case "read":
 		i := 0
